@@ -67,18 +67,21 @@ def run_probes(prop, mod):
                 printed.append(e['what'])
             continue
         path = os.path.join(env.VERIF_DIR, rp)
-        r = engine.replay_file(path)
+        with open(path) as f:
+            doc = json.load(f)
+        r = engine.forked(engine._replay_summary, doc)      # never in this process
+        v = r['violation']
         if e['status'] == 'known':
-            if r.violation and r.violation['clause'] == e.get('clause', r.violation['clause']):
+            if v and v['clause'] == e.get('clause', v['clause']):
                 _print(f'KNOWN-FINDING: property={prop} {e["what"]} '
-                       f'[clause {r.violation["clause"]}, replay {rp}]')
+                       f'[clause {v["clause"]}, replay {rp}]')
                 printed.append(e['what'])
             else:
                 _print(f'NOTE: known finding no longer reproduces (turn it into "fixed"): '
-                       f'{e["what"]} -> {r.violation}')
+                       f'{e["what"]} -> {v}')
         else:
-            if r.violation:
-                regress.append((path, r.violation))
+            if v:
+                regress.append((path, v))
     return printed, regress
 
 
@@ -87,37 +90,47 @@ def handle_violation(prop, modname, mod, summ, tier):
     clause = summ['violation']['clause']
     seed = summ['seed']
     rdir = os.path.join(env.VERIF_DIR, 'replays', prop)
-    orig = engine.write_replay(os.path.join(rdir, f'{seed}.orig.json'), prop, modname,
-                               seed, summ['cfg'], summ['desc'], summ['ops'],
-                               summ['violation'])
+    doc = {'property': prop, 'module': modname, 'seed': seed, 'tier': tier,
+           'cfg': summ['cfg'], 'desc': summ['desc'], 'ops': summ['ops'],
+           'violation': summ['violation'], 'prelude': []}
+    orig = engine.write_replay(os.path.join(rdir, f'{seed}.orig.json'), doc)
     # (a) reproduce from the recorded ops in a fresh interpreter
     rr = engine.replay_in_fresh_process(orig)
     if not rr['violation'] or rr['violation']['clause'] != clause:
-        _print(f'HARNESS-ERROR nondeterministic: seed {seed} clause {clause} '
-               f'did not reproduce from recorded ops: {rr}')
-        return engine.EXIT_HARNESS, orig
+        # not a function of this run alone: the history of the process matters.
+        # Every chunk starts from a pristine forked child, so the earlier runs of
+        # the chunk are the complete history; record them as a prelude.
+        before = summ.get('chunk_before') or []
+        if before:
+            doc['prelude'] = engine.forked(engine.regenerate_runs, modname, before, tier)
+            engine.write_replay(orig, doc)
+            rr = engine.replay_in_fresh_process(orig)
+        if not rr['violation'] or rr['violation']['clause'] != clause:
+            _print(f'HARNESS-ERROR nondeterministic: seed {seed} clause {clause} did not '
+                   f'reproduce from recorded ops (prelude of {len(doc["prelude"])} runs): {rr}')
+            return engine.EXIT_HARNESS, orig
     # (b) minimise
-    m = engine.minimise(mod, summ['cfg'], summ['desc'], summ['ops'], clause,
+    m = engine.minimise(doc, clause,
                         budget=int(os.environ.get('VERIF_SHRINK_BUDGET', '400')))
     if m is None:
-        _print(f'HARNESS-ERROR nondeterministic: in-process replay of seed {seed} '
+        _print(f'HARNESS-ERROR nondeterministic: forked replay of seed {seed} '
                f'does not fail with {clause}')
         return engine.EXIT_HARNESS, orig
-    cfg, desc, ops, calls = m
-    final = engine.execute(mod, cfg, desc, ops=ops)
-    mn = engine.write_replay(os.path.join(rdir, f'{seed}.min.json'), prop, modname,
-                             seed, cfg, desc, ops, final.violation,
-                             extra={'shrink_calls': calls,
-                                    'orig_ops': len(summ['ops'])})
+    mdoc, calls = m
+    final = engine.forked(engine._replay_summary, mdoc)
+    mdoc = dict(mdoc, violation=final['violation'], shrink_calls=calls,
+                orig_ops=len(summ['ops']))
+    mn = engine.write_replay(os.path.join(rdir, f'{seed}.min.json'), mdoc)
     # (c) the minimised file must fail the same way in a fresh process
     rr = engine.replay_in_fresh_process(mn)
     if not rr['violation'] or rr['violation']['clause'] != clause:
         _print(f'HARNESS-ERROR minimised replay does not reproduce: {rr}')
         return engine.EXIT_HARNESS, mn
     _print(f'VIOLATION property={prop} replay={mn}')
-    _print(f'  seed={seed} clause={clause} ops={len(ops)} (from {len(summ["ops"])}, '
+    pre = f', {len(mdoc["prelude"])} earlier run(s) of the process' if mdoc.get('prelude') else ''
+    _print(f'  seed={seed} clause={clause} ops={len(mdoc["ops"])} (from {len(summ["ops"])}{pre}, '
            f'{calls} re-executions)')
-    _print('  ' + final.violation['message'].replace('\n', '\n  ')[:3000])
+    _print('  ' + final['violation']['message'].replace('\n', '\n  ')[:3000])
     return engine.EXIT_VIOLATION, mn
 
 
